@@ -22,8 +22,17 @@ ParentStart(c, v, r) == LET S == {j \in 1..r : c.chg[j] >= 1 /\ c.chg[j] < v} IN
                         IF S = {} THEN 1 ELSE CHOOSE j \in S : \A x \in S : x <= j
 \* index of the value of level v at row r inside its parent group (restarts at 1 per parent)
 ValIdx(c, v, r) == LET s == ParentStart(c, v, r) IN 1 + CountChg(c, v, s + 1, r)
-PbText(c, v, r) == IF c.div /\ v = c.nlev /\ ValIdx(c, v, r) = 2 THEN "-----"
-                   ELSE "~P" \o ToString(v) \o "." \o ToString(ValIdx(c, v, r)) \o "~"
+\* divider modes: "none"; "second" = the second value of the innermost level is the divider '-----';
+\* "first" = under every outer group but the first, the FIRST innermost value is the divider and the
+\* following ones reuse the names of the first outer group (so a value can follow a divider with the
+\* same text it had under the previous outer group)
+PbName(v, i) == "~P" \o ToString(v) \o "." \o ToString(i) \o "~"
+PbText(c, v, r) ==
+  LET i == ValIdx(c, v, r) IN
+    IF c.div = "second" /\ v = c.nlev /\ i = 2 THEN "-----"
+    ELSE IF c.div = "first" /\ v = c.nlev /\ c.nlev >= 2 /\ ValIdx(c, v - 1, r) >= 2
+         THEN (IF i = 1 THEN "-----" ELSE PbName(v, i - 1))
+    ELSE PbName(v, i)
 RECURSIVE CountTrue(_, _)
 CountTrue(s, r) == IF r = 0 THEN 0 ELSE (IF s[r] THEN 1 ELSE 0) + CountTrue(s, r - 1)
 SubText(c, r) == "~S" \o ToString(CountTrue(c.schg, r)) \o "~"
